@@ -391,9 +391,17 @@ def rule_P8(ctx) -> None:
 
     def preds(fn) -> Set[str]:
         out = set()
+        # tests nested inside an already recognising `if` refine what is done with the entry, not which type is the entry
+        inner: Set[int] = set()
+        for n in ast.walk(fn):
+            if isinstance(n, ast.If) and "nested" in ast.unparse(n.test):
+                for sub in n.body + n.orelse:
+                    for m in ast.walk(sub):
+                        if isinstance(m, ast.If):
+                            inner.add(id(m))
         for n in ast.walk(fn):
             test = None
-            if isinstance(n, ast.If):
+            if isinstance(n, ast.If) and id(n) not in inner:
                 test = n.test
             elif isinstance(n, ast.comprehension):
                 for t in n.ifs:
@@ -450,8 +458,47 @@ def rule_P9(ctx) -> None:
         ctx.proved("P9", "generate_code:options-final-before-reading-types", parser.loc(fn), f"{len(assigns)} option assignments precede {len(reads)} read sites")
 
 
+def rule_P10(ctx) -> None:
+    """wrapper metadata survives in every position where the plugin unwraps a wrapper type to its scalar:
+    a field annotated Optional[int] for Int32Value must carry wraps=..., or the runtime takes `int` for the message class"""
+    models = ctx.repo.mod(M_MODELS)
+    init = ctx.repo.mod("src/betterproto/__init__.py")
+    fc_args = models.func("FieldCompiler.betterproto_field_args")
+    me_args = models.func("MapEntryCompiler.betterproto_field_args")
+    me_init = models.func("MapEntryCompiler.__post_init__")
+    ctx.analysed("FieldCompiler.betterproto_field_args", "MapEntryCompiler.betterproto_field_args", "MapEntryCompiler.__post_init__", "map_field")
+    # singular / repeated fields: wraps= is emitted whenever field_wraps is set
+    emits_wraps = any(isinstance(n, ast.If) and "field_wraps" in ast.unparse(n.test) and "wraps=" in ast.unparse(n) for n in ast.walk(fc_args))
+    if emits_wraps:
+        ctx.proved("P10", "field:wrapper-metadata", models.loc(fc_args))
+    else:
+        ctx.refuted("P10", "field:wrapper-metadata", "no-wraps-argument", models.loc(fc_args), "FieldCompiler no longer emits wraps= for wrapper-typed fields")
+    # map values: the value type comes from a helper FieldCompiler's py_type (unwrapping on) ...
+    # (a wrapper-typed value re-referenced with unwrap=False under a test on the wrapper table keeps the message class)
+    keeps_wrapper = any(isinstance(n, ast.If) and "WRAPPER_TYPES" in ast.unparse(n.test) and any(
+        isinstance(c, ast.Call) and any(k.arg == "unwrap" and isinstance(k.value, ast.Constant) and k.value.value is False for k in c.keywords)
+        and any(isinstance(a, ast.Assign) and "py_v_type" in ast.unparse(a.targets[0]) and c in list(ast.walk(a)) for a in ast.walk(n))
+        for c in ast.walk(n)) for n in ast.walk(me_init))
+    unwrapped_value = any(isinstance(n, ast.Attribute) and n.attr == "py_type" for n in ast.walk(me_init)) and not keeps_wrapper
+    # ... and the emitted map_field(...) call has no slot for the value's wrapper kind
+    passes_super = any(isinstance(n, ast.Call) and "super()" in ast.unparse(n.func) for n in ast.walk(me_args))
+    mentions_wraps = "wraps" in ast.unparse(me_args)
+    mf = init.func("map_field")
+    runtime_slot = any("wraps" in a.arg for a in mf.args.args + mf.args.kwonlyargs)
+    if not unwrapped_value:
+        ctx.proved("P10", "map-value:wrapper-metadata", models.loc(me_args), "map values are not unwrapped")
+    elif (passes_super or mentions_wraps) and runtime_slot:
+        ctx.proved("P10", "map-value:wrapper-metadata", models.loc(me_args), "the value's wrapper kind is passed to map_field")
+    else:
+        ctx.refuted("P10", "map-value:wrapper-metadata", "value-wrapper-lost", models.loc(me_args),
+                    "for map<K, google.protobuf.XxxValue> the value is annotated with the unwrapped scalar (Dict[K, Optional[int]]) but the emitted call is "
+                    "map_field(number, TYPE_K, TYPE_MESSAGE): MapEntryCompiler.betterproto_field_args overrides the sibling that emits wraps=, and map_field has no parameter for it. "
+                    "At run time the entry class is built with `int` as the message class of its value field and decoding fails ('int' object has no attribute 'parse')",
+                    "message M { map<int32, google.protobuf.UInt32Value> m = 1; }  M().parse(b'\\x0a\\x06\\x08\\x01\\x12\\x02\\x08\\x05')")
+
+
 def run(ctx) -> None:
-    for name, fn in (("P1", template.rule_P1), ("P2", rule_P2), ("P3", rule_P3), ("P4", rule_P4), ("P5", rule_P5), ("P6", rule_P6), ("P7", rule_P7), ("P8", rule_P8), ("Y2iii", template.rule_Y2iii), ("P9", rule_P9)):
+    for name, fn in (("P1", template.rule_P1), ("P2", rule_P2), ("P3", rule_P3), ("P4", rule_P4), ("P5", rule_P5), ("P6", rule_P6), ("P7", rule_P7), ("P8", rule_P8), ("Y2iii", template.rule_Y2iii), ("P9", rule_P9), ("P10", rule_P10)):
         ctx.rules_run.append(name)
         fn(ctx)
     from . import phases
